@@ -175,12 +175,14 @@ class C07(LinksMixin, Prop):
         for i in range(n):
             g = ac.Gen(random.Random(rng.getrandbits(48)), full=rng.random() < 0.6, depth=rng.choice([1, 2, 2, 3]),
                        prethread=rng.random() < 0.25, carried=rng.choice([0.0, 0.0, 0.5]))
+            g.callee = i % 5 == 4  # unannotated calls to a function DEFINED in the module (it programs the accelerators)
             yield {"kind": "trace", "src": g.program(), "xseed": rng.getrandbits(32)}
         # the same generator, second stream: links of the real pass vs `weave`, real infer_state_of vs `inferL`
         n = 500 if tier == "quick" else 6000
         for i in range(n):
             g = ac.Gen(random.Random(rng.getrandbits(48)), full=rng.random() < 0.6, depth=rng.choice([1, 2, 2, 3]),
                        prethread=rng.random() < 0.4, carried=rng.choice([0.0, 0.0, 0.0, 0.5]))
+            g.callee = i % 5 == 4
             src = g.program()
             if rng.random() < 0.4:
                 # pre-existing loop-carried state (stale yields / inits: class of the known findings DC07a, DC07b)
